@@ -125,7 +125,12 @@ def _cmp(ctx, mon, key, err, tol, what, wit):
     if slack == 0.0 and err <= tol:
         _worst(mon, err / tol if tol > 0 else 0.0)
     tol = tol + slack
-    return ctx.check(err <= tol, key, f"{what}: error {err:.3e} > tolerance {tol:.3e}", wit, mon=mon)
+    if err <= tol:
+        ctx.mon(mon)
+        return True
+    if callable(key):          # classifier: mechanism key from observed facts, evaluated only on failure
+        key = key(tol)
+    return ctx.check(False, key, f"{what}: error {err:.3e} > tolerance {tol:.3e}", wit, mon=mon)
 
 
 def _call(ctx, key, wit, fn, *a, **kw):
@@ -489,6 +494,25 @@ def chk_orbit(ctx, els):
     apx = _approx_tol(els)
     sfx = "-retrograde-equatorial" if retro_eq else ""
 
+    # classifiers for the two retrograde-equatorial mechanisms (signature = the state the mechanism would produce)
+    def key_a(x, generic):
+        """eci2coe returns the *eastward* longitude (of periapsis / true) although coe2eci at i = pi turns clockwise."""
+        def k(tol):
+            if retro_eq:
+                sig = (sma, e, inc, 0.0, raan - argp, nu) if e >= E_LIM else (sma, e, inc, 0.0, 0.0, raan - argp - nu)
+                if _serr(x, kr.state_from_coe(*sig)) <= max(tol, 1e-9) + 4.0 * apx:
+                    return "coe-roundtrip-retrograde-equatorial"
+            return generic + sfx
+        return k
+
+    def key_b(x, generic):
+        """singularityCheck forms raan + argp (+ anomaly) where a retrograde equatorial orbit needs argp - raan."""
+        def k(tol):
+            if retro_eq and _serr(x, kr.state_from_coe(sma, e, inc, -raan, argp, nu)) <= max(tol, 1e-9) + 4.0 * apx:
+                return "singularity-check-retrograde-equatorial"
+            return generic + sfx
+        return k
+
     # ---- forward: coe2eci is the definition ---------------------------------------------------------------
     ok, xf = _call(ctx, "coe2eci", wit, coe2eci, *els)
     if ok:
@@ -517,18 +541,17 @@ def chk_orbit(ctx, els):
         # round trip
         ok2, xb = _call(ctx, "coe2eci", wit, coe2eci, *c)
         if ok2:
-            rt_ok = _cmp(ctx, "coe_roundtrip", "coe-roundtrip" + sfx, _serr(xb, xr), (T_BASE + seam, apx),
+            rt_ok = _cmp(ctx, "coe_roundtrip", key_a(xb, "coe-roundtrip"), _serr(xb, xr), (T_BASE + seam, apx),
                          f"coe2eci(eci2coe(x)) != x for {cls} orbit {els}; eci2coe gave {c}", wit)
         ok3, xc = _call(ctx, "coe-class-fromECI", wit, lambda: ClassicalElements.fromECI(xr).toECI())
         if ok3:
-            _cmp(ctx, "coe_roundtrip", ("coe-roundtrip" + sfx) if retro_eq else "coe-class-roundtrip", _serr(xc, xr), (T_BASE + seam, 2 * apx),
+            _cmp(ctx, "coe_roundtrip", key_a(xc, "coe-class-roundtrip"), _serr(xc, xr), (T_BASE + seam, 2 * apx),
                  f"ClassicalElements.fromECI(x).toECI() != x for {cls} orbit {els}", wit)
 
     # ---- ClassicalElements(elements): singularityCheck path -------------------------------------------------
     ok, xs = _call(ctx, "coe-class", wit, lambda: ClassicalElements(*els).toECI())
     if ok:
-        key = "singularity-check-retrograde-equatorial" if (PI - inc < I_LIM * (1 + 1e-6)) else "coe-class-state"
-        _cmp(ctx, "coe_class_state", key, _serr(xs, xr), (T_BASE, apx),
+        _cmp(ctx, "coe_class_state", key_b(xs, "coe-class-state"), _serr(xs, xr), (T_BASE, apx),
              f"ClassicalElements{els}.toECI() differs from the definition of these elements ({cls})", wit)
 
     # ---- equinoctial sets, both retrograde factors ---------------------------------------------------------
@@ -567,22 +590,26 @@ def chk_orbit(ctx, els):
                 _coe_ranges(ctx, c2, w2, "eqe2coe")
                 ok3, x2 = _call(ctx, "coe2eci", w2, coe2eci, *c2)
                 if ok3:
-                    key = "singularity-check-retrograde-equatorial" if retro_eq else "eqe2coe-state" + rs
-                    _cmp(ctx, "eqe2coe_state", key, _serr(x2, xr), (tq + T_BASE, 2 * apx),
+                    _cmp(ctx, "eqe2coe_state", key_b(x2, "eqe2coe-state" + rs), _serr(x2, xr), (tq + T_BASE, 2 * apx),
                          f"coe2eci(eqe2coe(eci2eqe(x), retro={retro})) != x for {cls} orbit {els}; eqe2coe gave {c2}", w2)
-        ckey = "eqe-class-retro-flag-dropped" if retro else "eqe-class-roundtrip"
-        ok, xe = _call(ctx, "eqe-class" + rs, w2, lambda: EquinoctialElements.fromECI(xr, retro=retro).toECI())
+        def key_c(obj, generic):
+            """the factory was asked for the retrograde set but the object it returns says is_retro == False"""
+            return lambda tol: "eqe-class-retro-flag-dropped" if (retro and not obj.is_retro) else generic + rs
+
+        ok, ob = _call(ctx, "eqe-class-fromECI" + rs, w2, lambda: EquinoctialElements.fromECI(xr, retro=retro))
+        ok, xe = _call(ctx, "eqe-class-toECI" + rs, w2, ob.toECI) if ok else (False, None)
         if ok:
-            _cmp(ctx, "eqe_roundtrip", ckey, _serr(xe, xr), (tq, _approx_tol(els, eq=False)),
-                 f"EquinoctialElements.fromECI(x, retro={retro}).toECI() != x for {cls} orbit {els}", w2)
-        ok, xe = _call(ctx, "eqe-class" + rs, w2, lambda: EquinoctialElements.fromCOE(*els, retro=retro).toECI())
+            _cmp(ctx, "eqe_roundtrip", key_c(ob, "eqe-class-roundtrip"), _serr(xe, xr), (tq, _approx_tol(els, eq=False)),
+                 f"EquinoctialElements.fromECI(x, retro={retro}).toECI() != x for {cls} orbit {els} (object.is_retro = {ob.is_retro})", w2)
+        ok, ob = _call(ctx, "eqe-class-fromCOE" + rs, w2, lambda: EquinoctialElements.fromCOE(*els, retro=retro))
+        ok, xe = _call(ctx, "eqe-class-toECI" + rs, w2, ob.toECI) if ok else (False, None)
         if ok:
-            _cmp(ctx, "coe2eqe_state", ckey, _serr(xe, xr), (tq + T_BASE, 2 * _approx_tol(els, eq=False)),
-                 f"EquinoctialElements.fromCOE(elements, retro={retro}).toECI() differs from the definition for {cls} orbit {els}", w2)
+            _cmp(ctx, "coe2eqe_state", key_c(ob, "eqe-class-fromCOE"), _serr(xe, xr), (tq + T_BASE, 2 * _approx_tol(els, eq=False)),
+                 f"EquinoctialElements.fromCOE(elements, retro={retro}).toECI() differs from the definition for {cls} orbit {els} "
+                 f"(object.is_retro = {ob.is_retro})", w2)
         ok, xe = _call(ctx, "coe-class-fromEQE" + rs, w2, lambda: ClassicalElements.fromEQE(*qr, retro=retro).toECI())
         if ok:
-            key = "singularity-check-retrograde-equatorial" if retro_eq else "coe-class-fromEQE" + rs
-            _cmp(ctx, "eqe2coe_state", key, _serr(xe, xr), (tq + T_BASE, 2 * apx),
+            _cmp(ctx, "eqe2coe_state", key_b(xe, "coe-class-fromEQE" + rs), _serr(xe, xr), (tq + T_BASE, 2 * apx),
                  f"ClassicalElements.fromEQE(reference set, retro={retro}).toECI() differs from the definition for {cls} orbit {els}", w2)
         # COE -> EQE -> state (from the defining elements, and from what eci2coe returned when that round trip held)
         ok, q3 = _call(ctx, "coe2eqe" + rs, w2, coe2eqe, *els, retro=retro)
@@ -596,7 +623,7 @@ def chk_orbit(ctx, els):
             if ok:
                 ok2, x4 = _call(ctx, "eqe2eci" + rs, w2, eqe2eci, *q4, retro=retro)
                 if ok2:
-                    _cmp(ctx, "coe2eqe_state", "coe2eqe-after-eci2coe" + rs + sfx, _serr(x4, xr), (tq + T_BASE + seam, 2 * apx),
+                    _cmp(ctx, "coe2eqe_state", "coe2eqe-after-eci2coe" + rs, _serr(x4, xr), (tq + T_BASE + seam, 2 * apx),
                          f"eqe2eci(coe2eqe(eci2coe(x), retro={retro})) != x for {cls} orbit {els}", w2)
         else:
             ctx.count("dependent_check_skipped_after_failed_coe_roundtrip")
@@ -679,6 +706,14 @@ def chk_config(ctx, cfg):
     eq180 = PI - inc < I_LIM
     states = {}
 
+    def key_b(x, generic):
+        """singularityCheck forms raan + argp (+ anomaly) where a retrograde equatorial orbit needs argp - raan."""
+        def k(tol):
+            if eq180 and _serr(x, kr.state_from_coe(sma, e, inc, -els[3], els[4], els[5])) <= max(tol, 1e-9) + 4.0 * apx:
+                return "singularity-check-retrograde-equatorial"
+            return generic + ("-retrograde-equatorial" if eq180 else "")
+        return k
+
     def build(name, cls_, **kw):
         try:
             return True, cls_(**kw).toECI(t0)
@@ -700,8 +735,7 @@ def chk_config(ctx, cfg):
                   right_ascension=raan_d, argument_periapsis=argp_d, true_anomaly=nu_d)
     if ok:
         states["coe-full"] = x
-        key = "singularity-check-retrograde-equatorial" if eq180 else "config-coe-full"
-        _cmp(ctx, "cfg_coe_full", key, _serr(x, xr), (T_BASE, apx),
+        _cmp(ctx, "cfg_coe_full", key_b(x, "config-coe-full"), _serr(x, xr), (T_BASE, apx),
              f"COEStateConfig(a, e, i, raan, argp, nu) of a {cls} orbit gives a state different from the definition; cfg={cfg}", {**wit, "form": "coe-full"})
 
     def longitude_form(name, mon, east, along, **fields):
@@ -738,7 +772,7 @@ def chk_config(ctx, cfg):
                       right_ascension=raan_d, argument_latitude=_mod360(argp_d + nu_d))
         if ok:
             states["coe-circ-inclined"] = x
-            _cmp(ctx, "cfg_coe_circ_inclined", "singularity-check-retrograde-equatorial", _serr(x, xr), (T_BASE, apx),
+            _cmp(ctx, "cfg_coe_circ_inclined", key_b(x, "config-coe-circ-inclined"), _serr(x, xr), (T_BASE, apx),
                  f"COEStateConfig(raan, argument_latitude) of a {cls} orbit gives a state different from the definition; cfg={cfg}", {**wit, "form": "coe-circ-inclined"})
     # form 4: circular equatorial (true longitude)
     if circ and (eq0 or eq180):
@@ -771,7 +805,7 @@ def chk_config(ctx, cfg):
 # drivers
 # =============================================================================================================
 def run(ctx):
-    budget = BUDGET_S[ctx.tier]
+    budget = min(float(BUDGET_S[ctx.tier]), ctx.time_left())     # honours VERIF_BUDGET_S
     # ---- anomalies + Kepler (about 20 % of the wall budget) ---------------------------------------------------
     rng = ctx.pyrng("anom")
     n_anom = ctx.scale(16_000, 1_600_000)
